@@ -546,3 +546,173 @@ fn c02_head_writer_from_header() {
 fn c02_head_writer_complete() {
     c02_head_writer_case(2);
 }
+
+// =====================================================================================
+// C07 — outer read loop of the chunked reader, boundary stop (concrete framing, symbolic data)
+// =====================================================================================
+use crate::chunk::verif_h as kh;
+
+const FR: &[u8; 22] = b"1\r\nA\r\n2\r\nBC\r\n0\r\n\r\nNEXT";
+
+//@ props: C07 C01
+//@ tier: off
+//@ unwind: 12
+//@ unwindset: c07_read_chunked_boundary_stop=26 memcmp=6
+//@ timeout: 1500
+//@ mem: 24
+//@ encodes: Call::<RecvBody>::read, BodyReader::read / read_chunked (outer loop, boundary stop, buffer-full / input-empty exits), Dechunker::parse_input and all handlers
+//@ vars: concrete framing `1 CRLF a CRLF 2 CRLF b c CRLF 0 CRLF CRLF NEXT` (data bytes concrete too: a symbolic data byte makes the ';'-search of read_size symbolic and the run does not finish in 25 min); symbolic: output size 0..=4, stop-on-chunk-boundary flag, offered length (whole window or cut after the first chunk)
+//@ bounds: this framing (two chunks + terminator + bytes of a next message)
+//@ outside: other framings / cut positions (the handlers are covered on all windows <= 6 (8) bytes by c07_handler_*)
+//@ clause: one read: the consumed prefix is whole tokens, output = the data bytes consumed, never past the final CRLF, ended iff it was consumed; with boundary stopping no single read returns data from two different chunks; without it a large enough buffer receives all data and the coding is consumed to its last byte
+#[kani::proof]
+fn c07_read_chunked_boundary_stop() {
+    let w = *FR;
+    let whole: bool = kani::any();
+    let l = if whole { 22 } else { 6 };
+    let ol = any_le(4);
+    let stop: bool = kani::any();
+    let mut out = [0u8; 4];
+    let mut call: Call<RecvBody, ()> = mk_call(
+        mk_state(Phase::RecvBody, bh::mk_writer_none(), Some(BodyReader::Chunked(crate::chunk::Dechunker::new()))),
+        true,
+    );
+    call.stop_on_chunk_boundary(stop);
+    let r = call.read(&w[..l], &mut out[..ol]);
+    let (c, o) = match r {
+        Ok(v) => v,
+        Err(e) => {
+            core::mem::forget(e);
+            assert!(false, "C07/valid-coding-never-errs");
+            return;
+        }
+    };
+    assert!(c <= l && o <= ol, "C12/counts-within-windows");
+    // replay the consumed prefix through the reference automaton
+    let mut a = kh::A::SizeStart;
+    let mut k = 0;
+    let mut chunks_with_data = 0;
+    let mut fresh_chunk = true;
+    let mut i = 0;
+    while i < 22 {
+        if i < c {
+            assert!(a != kh::A::Done, "C07/never-consumes-past-the-final-crlf");
+            if a == kh::A::SizeStart {
+                fresh_chunk = true;
+            }
+            let (na, is_data) = kh::a_step(a, w[i]);
+            if is_data {
+                assert!(k < o && out[k] == w[i], "C07/output-is-exactly-the-chunk-data-in-order");
+                k += 1;
+                if fresh_chunk {
+                    chunks_with_data += 1;
+                    fresh_chunk = false;
+                }
+            }
+            a = na;
+        }
+        i += 1;
+    }
+    assert!(k == o, "C07/produced-equals-data-bytes-consumed");
+    assert!(call.is_ended() == (a == kh::A::Done), "C07/ended-iff-final-crlf-consumed");
+    if stop {
+        assert!(chunks_with_data <= 1, "C07/boundary-stop-never-mixes-two-chunks");
+    }
+    if !stop && whole && ol >= 3 {
+        assert!(o == 3 && c == 18 && call.is_ended(), "C07/whole-coding-consumed-exactly-to-its-final-crlf");
+    }
+    if whole && ol >= 1 {
+        assert!(o >= 1, "C07/progress-on-data");
+    }
+    kani::cover!(stop && whole && o == 1 && c == 6, "stopped-on-the-boundary");
+    kani::cover!(!stop && whole && o == 3, "both-chunks-in-one-read");
+    kani::cover!(!whole, "cut-after-first-chunk");
+    core::mem::forget(call);
+}
+
+// =====================================================================================
+// C01 — split confluence of the length-delimited reader and the sized writer
+// =====================================================================================
+
+//@ props: C01 C08
+//@ tier: quick
+//@ unwind: 4
+//@ unwindset: c01_split_confluence_length_reader=10
+//@ timeout: 900
+//@ encodes: Call::<RecvBody>::read (length-delimited) executed three times: once on the whole window, and split at an arbitrary cut
+//@ vars: remaining: any u64; window 8 symbolic bytes, offered length <= 8, cut <= length; output 8 bytes (large enough)
+//@ bounds: window <= 8 bytes
+//@ outside: output buffers smaller than the window (then each run delivers a prefix: the min-of-three law of c08_call_read_length_step)
+//@ clause: presenting a window at once or in two pieces (re-presenting unconsumed bytes) yields the same total consumed, the same bytes and the same final state
+#[kani::proof]
+fn c01_split_confluence_length_reader() {
+    let left: u64 = kani::any();
+    let w: [u8; 8] = kani::any();
+    let l = any_le(8);
+    let cut = any_le(8);
+    kani::assume(cut <= l);
+    let mk = || -> Call<RecvBody, ()> {
+        mk_call(mk_state(Phase::RecvBody, bh::mk_writer_none(), Some(BodyReader::LengthDelimited(left))), true)
+    };
+    let mut a = mk();
+    let mut out_a = [0u8; 8];
+    let (ca, oa) = a.read(&w[..l], &mut out_a).unwrap();
+    let mut b = mk();
+    let mut out_b = [0u8; 8];
+    let (c1, o1) = b.read(&w[..cut], &mut out_b).unwrap();
+    let (c2, o2) = b.read(&w[c1..l], &mut out_b[o1..]).unwrap();
+    assert!(c1 + c2 == ca && o1 + o2 == oa, "C01/split-delivery-consumes-the-same-total");
+    let mut i = 0;
+    while i < 8 {
+        if i < oa {
+            assert!(out_a[i] == out_b[i], "C01/split-delivery-yields-the-same-bytes");
+        }
+        i += 1;
+    }
+    assert!(a.state.reader == b.state.reader, "C01/split-delivery-ends-in-the-same-state");
+    assert!(a.is_ended() == b.is_ended(), "C01/split-delivery-ends-in-the-same-state");
+    kani::cover!(cut > 0 && cut < l && c2 > 0, "real-split");
+    kani::cover!(ca < l, "stopped-by-length");
+    core::mem::forget(a);
+    core::mem::forget(b);
+}
+
+//@ props: C01 C04
+//@ tier: quick
+//@ unwind: 4
+//@ unwindset: c01_split_confluence_sized_writer=10
+//@ timeout: 900
+//@ encodes: Call::<WithBody>::write (sized body) executed once on the whole input and split at an arbitrary cut
+//@ vars: remaining: any u64; input 8 symbolic bytes, length <= 8 and <= remaining, cut <= length; output 8 bytes
+//@ bounds: input <= 8 bytes
+//@ outside: output buffers smaller than the input
+//@ clause: writing an input at once or in two pieces yields the same total, the same bytes and the same final state
+#[kani::proof]
+fn c01_split_confluence_sized_writer() {
+    let left: u64 = kani::any();
+    let w: [u8; 8] = kani::any();
+    let l = any_le(8);
+    let cut = any_le(8);
+    kani::assume(cut <= l && l as u64 <= left);
+    let mk = || -> Call<WithBody, ()> { mk_call(mk_state(Phase::SendBody, bh::mk_writer_sized(left, false), None), true) };
+    let mut a = mk();
+    let mut out_a = [0u8; 8];
+    let (ia, oa) = a.write(&w[..l], &mut out_a).unwrap();
+    let mut b = mk();
+    let mut out_b = [0u8; 8];
+    let (i1, o1) = b.write(&w[..cut], &mut out_b).unwrap();
+    // an empty second piece is only offered if something is left to say (an empty write is the end signal)
+    let (i2, o2) = if i1 < l { b.write(&w[i1..l], &mut out_b[o1..]).unwrap() } else { (0, 0) };
+    assert!(i1 + i2 == ia && o1 + o2 == oa, "C01/split-delivery-consumes-the-same-total");
+    let mut i = 0;
+    while i < 8 {
+        if i < oa {
+            assert!(out_a[i] == out_b[i], "C01/split-delivery-yields-the-same-bytes");
+        }
+        i += 1;
+    }
+    assert!(bh::writer_same(&a.state.writer, &b.state.writer), "C01/split-delivery-ends-in-the-same-state");
+    kani::cover!(cut > 0 && cut < l, "real-split");
+    core::mem::forget(a);
+    core::mem::forget(b);
+}
